@@ -37,6 +37,17 @@ def apply(op, args, p, np=numpy):
     if op == 'reciprocal_s': return numpy.reciprocal(numpy.absolute(a) + .5)
     if op in ('add', 'subtract', 'multiply', 'hypot', 'arctan2', 'minimum', 'maximum', 'greater', 'less', 'equal', 'logical_and', 'logical_or', 'matmul', 'dot', 'vdot', 'cross'):
         return getattr(numpy, op)(a, b)
+    if op == 'pyscalar':
+        # one operand is a plain Python scalar (bool/int/float), as in `cond | False` or numpy.maximum(f, True)
+        sc = {'bool': bool, 'int': int, 'float': float}[p['kind']](p['s'])
+        f = p['f']
+        x, y = (a, sc) if p['side'] == 0 else (sc, a)
+        if f == 'op_or': return x | y
+        if f == 'op_and': return x & y
+        if f == 'op_add': return x + y
+        if f == 'op_mul': return x * y
+        if f == 'op_sub': return x - y
+        return getattr(numpy, f)(x, y)
     if op == 'divide_s': return numpy.true_divide(a, numpy.absolute(b) + .5)
     if op == 'floor_divide_s': return numpy.floor_divide(a, numpy.absolute(b) + 1)
     if op == 'mod_s': return numpy.mod(a, numpy.absolute(b) + 1)
@@ -92,7 +103,7 @@ def decode_index(ix):
 
 UNARY_F = ['negative', 'positive', 'absolute', 'square', 'sin', 'cos', 'arctan', 'exp', 'sinh', 'tanh', 'sqrtabs', 'log1pabs', 'reciprocal_s', 'arcsin_s', 'sinc', 'real', 'imag', 'conjugate']
 BINARY = ['add', 'subtract', 'multiply', 'divide_s', 'hypot', 'arctan2', 'minimum', 'maximum', 'op_add', 'op_mul', 'op_sub', 'add', 'multiply']
-EXACT_PRESERVING = {'negative', 'positive', 'absolute', 'square', 'add', 'subtract', 'multiply', 'op_add', 'op_mul', 'op_sub', 'op_rsub', 'minimum', 'maximum', 'sum', 'prod', 'max', 'min', 'transpose', 'T', 'swapaxes', 'reshape',
+EXACT_PRESERVING = {'pyscalar', 'negative', 'positive', 'absolute', 'square', 'add', 'subtract', 'multiply', 'op_add', 'op_mul', 'op_sub', 'op_rsub', 'minimum', 'maximum', 'sum', 'prod', 'max', 'min', 'transpose', 'T', 'swapaxes', 'reshape',
                     'ravel', 'trace', 'diagonal', 'repeat', 'take', 'getitem', 'concatenate', 'stack', 'broadcast_to', 'choose', 'choose_b', 'real', 'imag', 'conjugate', 'matmul', 'dot', 'op_matmul', 'einsum', 'power_i', 'op_pow', 'cross',
                     'floor_divide_s', 'mod_s', 'sign', 'greater', 'less', 'equal', 'logical_and', 'logical_or', 'logical_not', 'any', 'all', 'searchsorted', 'compress', 'vdot', 'minimum_c', 'mod_c'}
 
@@ -137,7 +148,7 @@ class Gen:
         return True
 
     def step(self):
-        fam = self.choice(['unary', 'binary', 'binary', 'reduce', 'shape', 'shape', 'index', 'index', 'linalg', 'logic', 'int', 'join', 'misc'])
+        fam = self.choice(['unary', 'binary', 'binary', 'reduce', 'shape', 'shape', 'index', 'index', 'linalg', 'logic', 'int', 'join', 'misc', 'pyscalar'])
         isnum = lambda v, e: v.dtype.kind in 'ifc'
         isreal = lambda v, e: v.dtype.kind in 'if'
         isf = lambda v, e: v.dtype.kind == 'f'
@@ -271,6 +282,17 @@ class Gen:
                     if d is not None: self.try_add(self.choice(['logical_and', 'logical_or']), [c, d], {})
                 else:
                     self.try_add('logical_not', [c], {})
+        elif fam == 'pyscalar':
+            a = self.pick(lambda v, e: v.dtype.kind in 'bif' and (e or v.dtype.kind != 'f'))
+            if a is None: return
+            k = self.pool[a][0].dtype.kind
+            if k == 'b':
+                kind, sc = 'bool', self.choice([True, False])
+                f = self.choice(['add', 'multiply', 'maximum', 'minimum', 'logical_and', 'logical_or', 'equal', 'op_or', 'op_and', 'op_add', 'op_mul'])
+            else:
+                kind, sc = self.choice([('bool', True), ('bool', False), ('int', 2), ('int', -3)] + ([('float', -1.5)] if k == 'f' else []))
+                f = self.choice(['add', 'multiply', 'subtract', 'maximum', 'minimum', 'equal', 'greater', 'op_add', 'op_mul', 'op_sub'])
+            if self.try_add('pyscalar', [a], dict(kind=kind, s=sc, f=f, side=self.integer(0, 1))): self.features.add('python-scalar-operand')
         elif fam == 'int':
             a, b = self.pick(lambda v, e: v.dtype.kind == 'i'), self.pick(lambda v, e: v.dtype.kind == 'i')
             if a is None: return
